@@ -15,7 +15,8 @@ def check(run):
         '1-4 concurrent writers, the directory renamed away across 1-3 boundaries and restored; oracle: no panic, no blocked call, every completed write whole and exactly once in the restored directory')
     tmp = common.scratch_dir('c19x')
     try:
-        names = ['file-missing-dir', 'file-closed', 'file-unlinked-dir', 'console-failing', 'rolling-missing-dir', 'rolling-stopped']
+        names = ['file-missing-dir', 'file-closed', 'file-unlinked-dir', 'console-failing', 'console-short-0', 'console-zero-nil', 'console-partial-short', 'console-partial-err',
+                 'console-full-err', 'rolling-missing-dir', 'rolling-stopped']
         common.write_lines(tmp + '/c', names)
         rc, li = common.run_impl('c19x', tmp + '/c', tmp + '/i')
         io = common.read_lines(tmp + '/i')
@@ -28,7 +29,7 @@ def check(run):
                 run.add_violation('oracle:c19/sinks', 'an I/O failure surfaced as a panic / blocked call: ' + o, ['family c19x', 'case ' + c, 'impl ' + o])
             if not bad:
                 run.discharged += 1
-            run.stream('c19/failing-sinks', len(names), len(names), True, 'file / console / rolling appenders whose target is missing, closed, unlinked or failing: every Start/Append/Write/Stop under a watchdog')
+            run.stream('c19/failing-sinks', len(names), len(names), True, 'file / console / rolling appenders whose target is missing, closed, unlinked or failing (console: every way an io.Writer can fail - no progress with an error, with io.ErrShortWrite, with nil; partial progress; full length plus error): every Start/Append/Write/Stop under a watchdog')
     finally:
         shutil.rmtree(tmp, ignore_errors=True)
     return 'see streams'
